@@ -23,7 +23,7 @@ func init() {
 		Assumptions: []string{"mask >= 1; output kept small for big heights (the property's own restriction)", "bit k of bm for the k-th stored node in pre-order: the list position, not the library's PathToIndex (C03 ties the two together)"},
 		Flavours:    releaseAnd386,
 		Required: []string{"range/from-on-path", "range/from-between-paths", "range/to-on-path", "range/to-beyond-last", "range/from>to", "range/full", "range/empty-result", "range/high-half>=2^h",
-			"level/absent", "h>=20", "decode/bm-shorter", "decode/bm-longer", "decode/bm-empty", "decode/bits>=bitmapSize", "decode/roundtrip", "decode/all-ones", "decode/bm>=2^31-bits"},
+			"level/absent", "h>=20", "decode/bm-shorter", "decode/bm-longer", "decode/bm-empty", "decode/bits>=bitmapSize", "decode/roundtrip", "decode/all-ones", "decode/bm>=2^31-bits", "decode/height>=16"},
 		Families: func(c *mon.Config) []mon.Family {
 			hs := c.Pick(6, 9)
 			return []mon.Family{
@@ -31,6 +31,7 @@ func init() {
 				{Name: "allpaths-windows", N: c.Pick(20000, 1500000), Run: c04Windows},
 				{Name: "decode", N: c.Pick(12000, 1000000), Run: c04Decode},
 				{Name: "decode-huge-bitmap", N: 1, Run: c04DecodeHuge},
+				{Name: "decode-tall", N: c.Pick(6, 60), Run: c04DecodeTall},
 			}
 		},
 	})
@@ -386,5 +387,86 @@ func c04DecodeHuge(w *mon.W, _ int) {
 	w.Distinct(gen.Hash64(0xb16, uint64(len(exp))))
 	w.Sample(func() interface{} {
 		return mon.D{"bitmapSize": fmt.Sprintf("%#b", mask), "bm_words": []int{4, 1 << 16, 1<<25 - 1, 1 << 25, 1<<25 + 3}, "decoded_paths": len(exp)}
+	})
+}
+
+// c04DecodeTall: round trips on trees of height 15..18 (quick) / ..20 (thorough): leaves at the ends of
+// every 2^8 / 2^12 / 2^16 block of the leaf level, inner nodes, and a random sprinkle.
+func c04DecodeTall(w *mon.W, idx int) {
+	r := w.Rng
+	h := 15 + idx%w.Cfg.Pick(4, 6)
+	full := (uint32(1) << uint(h+1)) - 1
+	top := uint32(1) << uint(h)
+	mask := []uint32{full, top, top | uint32(r.Uint64())&full}[idx%3]
+	var list []uint64
+	pos := map[uint64]int{}
+	bmPreorder(h, func(l int, prefix uint64) {
+		if bmStored(mask, l) {
+			p := bmPathWord(prefix, l, h)
+			pos[p] = len(list)
+			list = append(list, p)
+		}
+	})
+	w.Tick()
+	bm := make([]uint64, (len(list)+63)/64)
+	chosen := map[int]bool{}
+	pick := func(l int, prefix uint64) {
+		if k, ok := pos[bmPathWord(prefix, l, h)]; ok {
+			chosen[k] = true
+		}
+	}
+	nleaf := uint64(1) << uint(h)
+	for _, blk := range []uint64{1 << 8, 1 << 12, 1 << 16} {
+		for b := uint64(0); b < nleaf; b += blk {
+			if r.Intn(3) == 0 {
+				pick(h, b+blk-1) // last leaf of the block
+			}
+			if r.Intn(5) == 0 {
+				pick(h, b) // first leaf of the block
+			}
+		}
+	}
+	pick(h, nleaf-1)
+	pick(h, 0)
+	pick(0, 0)
+	for k := 0; k < 2000; k++ {
+		l := r.Intn(h + 1)
+		pick(l, r.Uint64()&((uint64(1)<<uint(l))-1))
+	}
+	var exp []uint64
+	for k := range list {
+		if chosen[k] {
+			setBit(bm, k)
+		}
+	}
+	for k, p := range list {
+		if chosen[k] {
+			exp = append(exp, p)
+		}
+	}
+	w.Tick()
+	w.Op, w.A, w.B = "Decode(tall)", int64(mask), int64(len(bm))
+	got := bmtree.Decode(int32(mask), bm)
+	w.Eval(1)
+	w.Tick()
+	if !eqWords(got, exp) {
+		miss := ""
+		gs := map[uint64]bool{}
+		for _, p := range got {
+			gs[p] = true
+		}
+		for _, p := range exp {
+			if !gs[p] {
+				miss = fmt.Sprintf("%#016x", p)
+				break
+			}
+		}
+		w.Fail("Decode/tall-tree", mon.D{"bitmapSize": fmt.Sprintf("%#b", mask), "height": h, "got_n": len(got), "expected_n": len(exp), "first_missing": miss})
+		return
+	}
+	w.Bucket("decode/height>=16")
+	w.Distinct(gen.Hash64(0x7a11, uint64(mask), uint64(len(exp))))
+	w.Sample(func() interface{} {
+		return mon.D{"bitmapSize": fmt.Sprintf("%#b", mask), "height": h, "encoded_nodes": len(exp)}
 	})
 }
